@@ -90,7 +90,55 @@ Definition hash (bt : N) : N :=
   let x := mask32 (x * 0xa4d94a4f) in
   N.land x 4095.                                            (* % DICTIONARY_SIZE *)
 
-Definition slot (b0 b1 b2 b3 : N) : positive := N.succ_pos (hash (batch b0 b1 b2 b3)).
+(** *** Fast evaluation of [hash (batch b0 b1 b2 b3)]
+
+    With [N] as a binary datatype the two 32 bit multiplications of [hash]
+    dominate the running time of the extracted encoder.  [hash_fast] computes
+    the same value ([Lz4Proofs.hash_fast_eq], for all arguments):
+    - first multiplication: [batch * K mod 2^32] is the sum, mod [2^32], of the
+      four per-byte products [b_i * K * 2^(8 i) mod 2^32], read from four 256
+      entry tables;
+    - only the low 12 bits of the second product are used, and they depend only
+      on the low 12 bits of its argument: one 4096 entry table.
+    The tables are closed top-level constants (built once, at module
+    initialisation in the extracted code).  If a table lookup fails (a "byte"
+    [>= 256]), the literal definition is used. *)
+
+Definition hash_mult : N := 0xa4d94a4f.
+
+(** Table with [f i] at key [N.succ_pos i], for [i < n]. *)
+Definition mk_table (f : N -> N) (n : N) : PositiveMap.t N :=
+  snd (N.iter n (fun st : N * PositiveMap.t N =>
+                   let (i, m) := st in (N.succ i, PositiveMap.add (N.succ_pos i) (f i) m))
+              (0, PositiveMap.empty N)).
+
+Definition table_get (t : PositiveMap.t N) (i : N) : option N :=
+  PositiveMap.find (N.succ_pos i) t.
+
+Definition mul_table0 : PositiveMap.t N := mk_table (fun b => mask32 (b * hash_mult)) 256.
+Definition mul_table1 : PositiveMap.t N := mk_table (fun b => mask32 (256 * b * hash_mult)) 256.
+Definition mul_table2 : PositiveMap.t N := mk_table (fun b => mask32 (65536 * b * hash_mult)) 256.
+Definition mul_table3 : PositiveMap.t N := mk_table (fun b => mask32 (16777216 * b * hash_mult)) 256.
+Definition mul_table12 : PositiveMap.t N := mk_table (fun v => N.land (v * hash_mult) 4095) 4096.
+
+Definition hash_fast (b0 b1 b2 b3 : N) : N :=
+  match table_get mul_table0 b0, table_get mul_table1 b1,
+        table_get mul_table2 b2, table_get mul_table3 b3 with
+  | Some t0, Some t1, Some t2, Some t3 =>
+      let x := mask32 (t0 + t1 + t2 + t3) in
+      let a := N.shiftr x 16 in
+      let b := N.shiftr a 14 in
+      let v := N.lxor (N.land x 4095) (N.land (N.shiftr a b) 4095) in
+      match table_get mul_table12 v with
+      | Some h => h
+      | None => hash (batch b0 b1 b2 b3)          (* unreachable: v < 4096 *)
+      end
+  | _, _, _, _ => hash (batch b0 b1 b2 b3)        (* some b_i >= 256 *)
+  end.
+
+(** [get_cur_hash] for the batch [b0 b1 b2 b3], as a dictionary key.
+    [hash_fast b0 b1 b2 b3 = hash (batch b0 b1 b2 b3)]. *)
+Definition slot (b0 b1 b2 b3 : N) : positive := N.succ_pos (hash_fast b0 b1 b2 b3).
 
 (** Dictionary: slot -> (position, suffix of the input at that position).
     Absent = trap value. *)
